@@ -19,6 +19,7 @@ from . import tlaval
 
 VERIF = os.path.dirname(os.path.dirname(os.path.abspath(__file__)))
 SPEC = os.path.join(VERIF, 'spec')
+REPO = os.environ.get('VERIF_REPO', '/repo')   # /repo unless a development run points at a scratch worktree
 TLAJAR = '/opt/veriftools/tla/tla2tools.jar:/opt/veriftools/tla/CommunityModules-deps.jar'
 NCPU = os.cpu_count() or 4
 
